@@ -200,20 +200,12 @@ func Intersection(limit int, sets ...*Set) (*Set, bool) {
 	}
 }
 
-// Union takes a slice of sets and generates a union
+// Union takes a slice of sets and generates a union.
+// The result is always a new set: the operands are neither modified nor shared with it.
 func Union(sets ...*Set) *Set {
-	switch len(sets) {
-	case 0:
-		return NewSet([]string{})
-	case 1:
-		return sets[0]
-	case 2:
-		union := sets[0]
-		union.Add(sets[1].GetAll())
-		return union
-	default:
-		left := Union(sets[0 : len(sets)/2]...)
-		right := Union(sets[len(sets)/2:]...)
-		return Union(left, right)
+	union := NewSet([]string{})
+	for _, s := range sets {
+		union.Add(s.GetAll())
 	}
+	return union
 }
